@@ -37,6 +37,13 @@ type wGlobal struct {
 	K     int
 }
 
+// wController: a controller repository's metadata as carried in the policy tree
+// (gittuf-controller/<name>/root.json), with the global rules its root declares.
+type wController struct {
+	Name    string
+	Globals []wGlobal
+}
+
 type wFile struct {
 	hFile
 	Version int
@@ -53,6 +60,7 @@ type wPolicy struct {
 	RootSigners    []int
 	Files          []*wFile // "targets" first when present
 	Globals        []wGlobal
+	Controllers    []wController
 	Hooks          []wHook // C20: pre-commit hooks declared in the root of trust
 	Apps           []wApp  // C09: code-review apps declared in the root of trust
 	// the root envelope carries no signature of its own: its signature block is copied verbatim from
@@ -149,13 +157,26 @@ func (p *wPolicy) coq() string {
 	for _, f := range p.Files {
 		files = append(files, f.coqS())
 	}
-	gs := []string{}
-	for _, g := range p.Globals {
-		if g.Kind == "threshold" {
-			gs = append(gs, fmt.Sprintf("(GThreshold %s %s (%d)%%Z)", coqStr(g.Name), coqStrs(g.Pats), g.K))
-		} else {
-			gs = append(gs, fmt.Sprintf("(GBlockForce %s %s)", coqStr(g.Name), coqStrs(g.Pats)))
+	coqGlobals := func(l []wGlobal) []string {
+		gs := []string{}
+		for _, g := range l {
+			if g.Kind == "threshold" {
+				gs = append(gs, fmt.Sprintf("(GThreshold %s %s (%d)%%Z)", coqStr(g.Name), coqStrs(g.Pats), g.K))
+			} else {
+				gs = append(gs, fmt.Sprintf("(GBlockForce %s %s)", coqStr(g.Name), coqStrs(g.Pats)))
+			}
 		}
+		return gs
+	}
+	gs := coqGlobals(p.Globals)
+	if len(p.Controllers) > 0 {
+		cs := []string{}
+		for _, ct := range p.Controllers {
+			cs = append(cs, fmt.Sprintf("(%s, %s)", coqStr(ct.Name), coqList(coqGlobals(ct.Globals))))
+		}
+		q := *p
+		q.Controllers = nil
+		return fmt.Sprintf("(with_controllers %s %s)", q.coq(), coqList(cs))
 	}
 	return fmt.Sprintf("{| ps_root_version := %d%%N; ps_root_keys := %s; ps_root_thr := (%d)%%Z; ps_targets_keys := %s; ps_targets_thr := (%d)%%Z; ps_has_targets_role := %s; ps_root_signers := %s; ps_files := %s; ps_globals := %s |}",
 		p.RootVersion, coqKeys(p.RootKeys), p.RootThr, coqKeys(p.TargetsKeys), p.TargetsThr, coqBool(p.HasTargetsRole), coqKeys(p.validRootSigners()), coqList(files), coqList(gs))
@@ -213,7 +234,7 @@ func (w *wWorld) human() []string {
 				}
 				fs = append(fs, fmt.Sprintf("%s v%d signed%v defs=%v [%s]", f.Name, f.Version, f.Signers, f.Defs, strings.Join(rs, "; ")))
 			}
-			out = append(out, fmt.Sprintf("%d policy rootv%d rootkeys=%v/%d targetskeys=%v/%d signed%v globals=%v files: %s", i, e.Pol.RootVersion, e.Pol.RootKeys, e.Pol.RootThr, e.Pol.TargetsKeys, e.Pol.TargetsThr, e.Pol.RootSigners, e.Pol.Globals, strings.Join(fs, " | ")))
+			out = append(out, fmt.Sprintf("%d policy rootv%d rootkeys=%v/%d targetskeys=%v/%d signed%v globals=%v controllers=%v files: %s", i, e.Pol.RootVersion, e.Pol.RootKeys, e.Pol.RootThr, e.Pol.TargetsKeys, e.Pol.TargetsThr, e.Pol.RootSigners, e.Pol.Globals, e.Pol.Controllers, strings.Join(fs, " | ")))
 		case "ref":
 			out = append(out, fmt.Sprintf("%d push %s -> c%d signed by key %d", i, e.Ref, e.Commit, e.Signer))
 		case "tag":
@@ -438,7 +459,20 @@ func buildWorldHook(w *wWorld, hook func(i int, b *builtWorld) error) (*builtWor
 				if err != nil {
 					return nil, err
 				}
-				root, err = b.m.WriteTree([]gitstore.TreeEntry{{Path: "metadata", ID: st, Kind: gitstore.KindSubtree}})
+				top := []gitstore.TreeEntry{{Path: "metadata", ID: st, Kind: gitstore.KindSubtree}}
+				for _, ct := range e.Pol.Controllers {
+					// the controller's own root of trust: one root key, version 1, its global rules
+					cmd, err := (&wPolicy{RootVersion: 1, RootKeys: []int{1}, RootThr: 1, RootSigners: []int{1}, Globals: ct.Globals}).stateMetadata()
+					if err != nil {
+						return nil, err
+					}
+					cst, err := cmd.WriteTree(b.m)
+					if err != nil {
+						return nil, err
+					}
+					top = append(top, gitstore.TreeEntry{Path: tuf.GittufControllerPrefix + "/" + ct.Name, ID: cst, Kind: gitstore.KindSubtree})
+				}
+				root, err = b.m.WriteTree(top)
 				if err != nil {
 					return nil, err
 				}
